@@ -156,9 +156,13 @@ def run(ctx):
         L = [[a_, 0, 0], [m_ * a_ + rng.choice([-2, -1, 1, 2]), rng.choice([1, 2, 3]), 0], [rng.randint(-2, 2), rng.randint(-2, 2), rng.randint(6, 12)]]
         if rng.random() < 0.3:
             L[0], L[1] = L[1], L[0]
-        pbc = rng.choice([(True, True, True), (True, True, False), (True, True, True)])
+        pbc = rng.choice([(True, True, True), (True, True, False), (True, True, True), (True, True, False)])
+        if pbc == (True, True, False) and rng.random() < 0.6:
+            L[2] = [0, 0, 1]          # a non-periodic cell vector shorter than every periodic lattice vector: it must not set the search radius
         vs = [(0, 0, 0)] + [tuple(rng.choice([-1, 0, 1]) for _ in range(3)) for _ in range(rng.randint(0, 2))]
-        if rng.random() < 0.3:
+        if k % 2 == 0:
+            vs = [(0, 0, 0)] * rng.randint(1, 2)          # nothing but self-images asked for
+        elif rng.random() < 0.3:
             vs.append(lc.comb([rng.randint(-2, 2) for _ in range(3)], L))
         rng.shuffle(vs)
         red = [lc.reduce_vec(L, pbc, v)[0] for v in vs]
